@@ -19,6 +19,25 @@ ACO = "berty.tech/go-orbit-db/accesscontroller/orbitdb"
 ODB = "berty.tech/go-orbit-db/baseorbitdb"
 
 CHECKS = {
+    "C18": {
+        "groups": [{
+            "pkg": BS, "funcs": ["VerifC18Close"],
+            "max_paths": {"quick": 100000, "thorough": 100000},
+            "timeout": {"quick": "15m", "thorough": "30m"},
+            "covers": {"VerifC18Close": ["idle", "mid-write", "mid-replication", "mid-load", "closed", "later-returned"]},
+        }, {
+            "pkg": ODB, "funcs": ["VerifC18Drop"],
+            "params": {"quick": {"L": 1}, "thorough": {"L": 2}},
+            "covers": {"VerifC18Drop": ["created", "dropped", "instance-closed"]},
+        }],
+        "assumptions": [
+            "a real BaseStore with replication enabled over stubs; Close is issued by a concurrent thread at ANY visible operation (lock, channel operation, goroutine start, block/cache effect) of a local write, of a replication (real Sync/replicator/fetcher/Join) or of a Load, or when idle; then Close is repeated 1..2 times; then one later operation (write, load, sync, close)",
+            "leak check: at quiescence (decided from the scheduler state) no interpreter thread whose function belongs to go-orbit-db/stores is alive; a thread blocked for ever counts as alive; a main thread blocked for ever is reported as a deadlock",
+            "stub contracts: the pubsub topic's watch channels are closed when their context ends; the event bus delivers under its read lock and Subscription.Close drains concurrently (as libp2p's eventbus)",
+            "Drop: a real orbitDB instance with two event logs over the real cache manager (cacheleveldown) on a disk model (one store per directory path, os.RemoveAll removes by prefix); names symbolic",
+        ],
+        "outside": ["goroutines, file handles and timers inside leveldb, libp2p, kubo, the real eventbus", "OS-level directory removal", "Close racing with two or more other operations at once"],
+    },
     "C14": {
         "groups": [{
             "pkg": ODB, "funcs": ["VerifC14Determinism", "VerifC14Reopen", "VerifC14Escape"],
